@@ -9,3 +9,15 @@ Open Scope Z_scope.
 Theorem C01_slack_is_the_spec_quantity : forall d s, sl d s = slack s d.
 Proof. exact sl_is_slack. Qed.
 Print Assumptions C01_slack_is_the_spec_quantity.
+
+(* JC d c s: the structural invariants (sorted maps, assets keyed by their denom, recorded
+   withdrawals non-negative) hold and custody of d exceeds what is owed by at least c *)
+Theorem C01_delegation_keeps_custody_covering_partial : forall d, d <> BOND_DENOM ->
+  forall del v vi dn amt c, del <> ACC_ALLIANCE -> 0 < amt ->
+  hoare (JC d c) (k_delegate del v vi dn amt) (fun _ => JC d c) (fun _ => True).
+Proof. exact jc_k_delegate. Qed.
+Print Assumptions C01_delegation_keeps_custody_covering_partial.
+
+Theorem C01_claim_keeps_custody_covering_partial : forall d del v vi dn c, del <> ACC_ALLIANCE -> inv (JC d c) (claim_delegation_rewards del v vi dn).
+Proof. exact jc_claim_delegation_rewards. Qed.
+Print Assumptions C01_claim_keeps_custody_covering_partial.
